@@ -108,6 +108,8 @@ if __name__ == '__main__':
             mm.check_root_post(r['interp'], inst, r['results'], r.get('args', []))
             mm.check_domain(r['interp'], inst, vs[0][0], r['results'])
             mm.check_spec_post(r['interp'], inst, r['results'], r.get('args', []))
+            mm.check_iter_post(r['interp'], inst, r['results'], r.get('args', []))
+            mm.check_verified(r['interp'], inst, r['results'], r.get('args', []))
             from . import eqspec
             eqspec.check(r['interp'], inst, r['results'], r.get('args', []))
             if vs[0][2]:
